@@ -190,7 +190,7 @@ func Build(sc *Scenario, opt Options) *Run {
 	}
 	r.Binder = mon.NewBinder(binder.NewViperBinder("yaml"), bb)
 	ops := []app.SettingOption{
-		app.SetLogger(Quiet),
+		app.SetLogger(Logger),
 		app.SetRegistry(r.Pop),
 		app.SetFactory(factory.NewWithRegistries(r.Perm, scr)),
 		app.SetConfigBinder(r.Binder),
